@@ -52,6 +52,29 @@ Theorem C15_free_text_shape :
   forall s, tail_ok WS s = true <-> s = [] \/ exists w t, s = (w ++ t)%list /\ w <> [] /\ forallb is_ws w = true /\ forallb nonl t = true.
 Proof. exact tail_ok_spec. Qed.
 
+(* ---- @implements ---- *)
+Theorem C15_implements_expression : re_implements = implements_re (kw "@implements").
+Proof. vm_compute. reflexivity. Qed.
+
+(* for EVERY comment text: the line is an @implements annotation iff after the common head (blanks // blanks @implements) come
+   at least one blank, an optional &, an identifier, optionally a dot and a second identifier - all by maximal munch - and
+   then the free-text tail; the three fields are exactly those pieces (no qualifier: the identifier is the interface) *)
+Theorem C15_implements_exact :
+  forall text, x_parse_implements text =
+    match strip_head (kw "@implements") (list_ascii_of_string text) with
+    | Some rest => option_map show (spec_impl_args rest)
+    | None => None
+    end.
+Proof.
+  intros text. unfold x_parse_implements. rewrite C15_implements_expression.
+  unfold kw. cbn [list_ascii_of_string]. apply parse_implements_exact. vm_compute. reflexivity.
+Qed.
+
+Example C15_implements_nonvacuous :
+  map x_parse_implements ["// @implements &io.Reader  trailing text"; "// @implements Reader"; "// @implements io.Reader;"; "// @implements io."; "//@implements\tX.Y z"; "// @implements & X"]
+  = [Some (true, "io", "Reader"); Some (false, "", "Reader"); None; None; None; None].
+Proof. vm_compute. reflexivity. Qed.
+
 Example C15_nonvacuous :
   map x_parse_immutable ["// @immutable"; "  //@immutable  because"; "// @immutablex"; "// @Immutable"; "// see @immutable"; "/* @immutable */"; "// @immutable;"]
   = [true; true; false; false; false; false; false].
@@ -64,3 +87,5 @@ Print Assumptions C15_testonly_exact.
 Print Assumptions C15_mutable_exact.
 Print Assumptions C15_flag_line_shape.
 Print Assumptions C15_free_text_shape.
+Print Assumptions C15_implements_expression.
+Print Assumptions C15_implements_exact.
